@@ -259,6 +259,7 @@ type Result struct {
 	CommitStart int // index of the first call made by Commit
 	N0          int // canonical ids named before Commit began
 	Items       [][3]any // per store: name, hasTrackedItems, non-add tracked items
+	Values      map[string][]sop.UUID // per store: ids of the separate-segment value blobs the commit will write
 	OpResults   []string
 }
 
@@ -506,6 +507,7 @@ type Obs struct {
 	After      Dump
 	Res        *Result
 	RetryErr   error // result of committing the same changes again with no faults (only when the first commit failed)
+	Panic      string // the code under test panicked (in the target transaction or in the retry)
 	RetryDone  bool
 	Retry      *Result
 	AfterRetry Dump
@@ -514,12 +516,24 @@ type Obs struct {
 	Trace      []string // calls made by Commit (from CommitStart on)
 	RetryTrace []string
 	Pre        *DiskState // disk before the target transaction
+	PreReach   *Reach
 	Env        *txk.Env
 	N0         int // canonical ids named before Commit began
 	PostCommit *DiskState // disk right after the target commit (before any retry)
 	PostCounts map[string]int64
 	SetupErr   error
 	Elapsed    time.Duration
+}
+
+// safely runs f, turning a panic of the code under test into a nil result and a recorded message.
+func safely(f func() (*Result, error), msg *string) (r *Result, err error) {
+	defer func() {
+		if x := recover(); x != nil {
+			*msg = fmt.Sprint(x)
+			r, err = nil, nil
+		}
+	}()
+	return f()
 }
 
 // CommitCalls lists the call classes made during a fault-free commit of the program, in order.
@@ -554,6 +568,9 @@ func Run(ctx context.Context, pr Program, faultName string, faultOcc int, kind t
 	if o.Pre, err = ReadDisk(dir); err != nil {
 		return nil, err
 	}
+	if o.PreReach, err = Walk(ctx, e, o.Pre); err != nil {
+		o.PreReach = &Reach{Lids: map[sop.UUID]bool{}, BlobIDs: map[sop.UUID]bool{}}
+	}
 	o.Env = e
 	e.ColdRestart()
 	sc := txk.NewScript(e.Canon)
@@ -571,9 +588,15 @@ func Run(ctx context.Context, pr Program, faultName string, faultOcc int, kind t
 	}
 	sc.Gate = nil
 	// arm the fault counter when Commit starts: RunTarget records CommitStart = N()+1, so arm via a wrapper
-	res, err := runTargetArmed(ctx, e, pr, sc, o.Pre, func() { armed = true })
+	res, err := safely(func() (*Result, error) { return runTargetArmed(ctx, e, pr, sc, o.Pre, func() { armed = true }) }, &o.Panic)
 	if err != nil {
 		return nil, err
+	}
+	if res == nil {
+		// the transaction under test panicked: keep what is known so the oracle can report it with the input
+		res = &Result{Script: sc, OpenErr: fmt.Errorf("panic: %s", o.Panic)}
+		o.Res = res
+		return o, nil
 	}
 	o.Res = res
 	for _, c := range sc.Calls {
@@ -598,9 +621,12 @@ func Run(ctx context.Context, pr Program, faultName string, faultOcc int, kind t
 		// tables is still there, and no clock is advanced
 		o.RetryDone = true
 		sc2 := txk.NewScript(e.Canon)
-		r2, err := RunTarget(ctx, e, pr, sc2)
+		r2, err := safely(func() (*Result, error) { return RunTarget(ctx, e, pr, sc2) }, &o.Panic)
 		if err != nil {
 			return nil, err
+		}
+		if r2 == nil {
+			r2 = &Result{Script: sc2, OpenErr: fmt.Errorf("panic: %s", o.Panic)}
 		}
 		for _, c := range sc2.Calls {
 			if c.Idx >= r2.CommitStart {
@@ -653,6 +679,7 @@ func runTargetArmed(ctx context.Context, e *txk.Env, pr Program, sc *txk.Script,
 	r.WriteSet = common.VerifWriteSet(t.P)
 	r.Deltas = common.VerifCountDeltas(t.P)
 	r.Items = common.VerifItemCounts(t.P)
+	r.Values = common.VerifValueIDs(t.P)
 	// name every id the commit can touch, in a fixed order, before Commit begins
 	nameWriteSet(e, r.WriteSet, pre)
 	r.N0 = e.Canon.Next()
